@@ -454,7 +454,11 @@ func c13Run(c c13Case, st *fw.Stats) []fw.Viol {
 		if c.Prefix[0] == 0 && c.Prefix[1] == 0 {
 			for _, t := range append([]string{""}, c13Tokens...) {
 				t := t
-				if pv := try(func() { r := rux.New(); r.GET(t, c13Noop); c13Lookups(r, c13ShortPaths[:31], fmt.Sprintf("raw pattern %q", t), st, add) }); pv != nil {
+				if pv := try(func() {
+					r := rux.New()
+					r.GET(t, c13Noop)
+					c13Lookups(r, c13ShortPaths[:31], fmt.Sprintf("raw pattern %q", t), st, add)
+				}); pv != nil {
 					st.Inc("raw_rejected", 1)
 				}
 			}
